@@ -53,7 +53,8 @@ ROOTS = [
     ("Rectangle", None, "anchor_x"), ("Rectangle", None, "anchor_y"), ("Rectangle", None, "rows"),
     ("Rectangle", None, "columns"), ("Rectangle", None, "is_zero_sized"),
     ("Rectangle", "ContainsPoint", "contains"), ("Rectangle", "OffsetOutline", "offset"),
-    ("Rectangle", "Transform", "translate"),
+    ("Rectangle", "Transform", "translate"), ("Rectangle", "Dimensions", "bounding_box"),
+    ("Rectangle", "PointsIter", "points"),
     # Point / Size arithmetic helpers used by other models (not all reached from Rectangle)
     ("Point", None, "new"), ("Point", None, "new_equal"), ("Point", None, "zero"), ("Point", None, "abs"),
     ("Point", None, "x_axis"), ("Point", None, "y_axis"),
@@ -1950,6 +1951,8 @@ def load_program(repo):
     return prog
 
 
+INVENTORY_TYPES = ["Rectangle", "Points"]
+
 EXPECTED_STRUCTS = {
     "Point": [("x", "i32"), ("y", "i32")],
     "Size": [("width", "u32"), ("height", "u32")],
@@ -1994,10 +1997,20 @@ def translate(repo):
     for (it, trn, n) in ROOTS:
         tr.need(tr.find_fn(it, trn, n, "roots"))
     text.append("\n".join(tr.out))
+    # inventory: every fn of every impl of the subject types found in the parsed files that is NOT translated
+    # (e.g. an override of `Iterator::fold` added to `impl Iterator for Points` changes behaviour without touching
+    # any translated body: it shows up here, and the theorem `untranslated_pinned` of Props/C16/Generated.lean breaks)
+    untranslated = {}
+    for (it, trn, n), f in sorted(prog.fns.items(), key=lambda kv: (kv[0][0] or "", kv[0][1] or "", kv[0][2])):
+        if it in INVENTORY_TYPES and (it, trn, n) not in tr.done:
+            untranslated.setdefault(f"impl {trn + ' for ' if trn else ''}{it}", []).append(n)
+    text.append("\n/-- functions of the impls of " + " / ".join(INVENTORY_TYPES) + " (in the parsed files) that are NOT translated -/\n"
+                "def untranslated : List (String × List String) := [\n"
+                + ",\n".join(f'  ("{k}", [' + ", ".join(f'"{n}"' for n in v) + "])" for k, v in untranslated.items()) + "]\n")
     text.append("\n/-- what was translated (Lean name, Rust origin) -/\ndef translated : List (String × String) := [\n"
                 + ",\n".join(f'  ("{a}", "{b}")' for a, b in tr.listing) + "]\n")
     text.append("\nend EG.Generated.RectSrc\n")
-    info = {"functions": len(tr.listing), "enums": {en: len(prog.enums[en]) for en in enums_used},
+    info = {"functions": len(tr.listing), "untranslated": untranslated, "enums": {en: len(prog.enums[en]) for en in enums_used},
             "names": [a for a, _ in tr.listing]}
     return "".join(text), info
 
